@@ -278,6 +278,7 @@ def mux_check(prop, tier, seed, replay):
     evaluations = 0
     hashes_nontrivial = set()
     samples = []
+    api_hits = 0
     try:
         if replay:
             # re-execute one recorded trace's schedule on the current tree and validate it
@@ -411,6 +412,7 @@ def mux_check(prop, tier, seed, replay):
                     if len(samples) < 2:
                         samples.append(dict(mode=mode, events=[json.loads(x) for x in lines[:12]], total_events=len(lines)))
             log(f"[trace] mode={mode}: {r['traces']} traces, {r['accepted']} accepted by TLC, {len(r['failures'])} rejected")
+            elsewhere = []
             for f in r["failures"]:
                 props = attribute(f)
                 desc = vlib.describe_failure(f)
@@ -418,7 +420,24 @@ def mux_check(prop, tier, seed, replay):
                     path = vlib.save_replay(prop, mode, f["lines"], note=desc)
                     violations.append((path, desc))
                 else:
-                    other.append(dict(mode=mode, attributed_to=sorted(props), first_divergence=f.get("unmatched")))
+                    elsewhere.append((f, props))
+            # A trace whose FIRST divergence speaks about other properties may still violate this one further on (a defect
+            # in shared machinery -- the send path, the transport handling -- surfaces at whatever frame comes first).  The
+            # whole trace is therefore judged once more against the application-level contract (spec/MuxApi.tla).
+            if elsewhere:
+                api = vlib.api_oracle([f["lines"] for f, _ in elsewhere])
+                for (f, props), hits in zip(elsewhere, api):
+                    mine = [(ln, sorted(v)) for ln, v in hits if any(x.split(".")[0] == prop for x in v)]
+                    if mine:
+                        ln, names = mine[0]
+                        desc = (f"application-level contract (spec/MuxApi.tla) violated at line {ln} of the trace: {', '.join(names)}; "
+                                f"the trace had stopped conforming to PenguinMux earlier:\n" + vlib.describe_failure(f))
+                        path = vlib.save_replay(prop, mode + "_api", f["lines"], note=desc)
+                        violations.append((path, desc))
+                        api_hits += 1
+                    else:
+                        other.append(dict(mode=mode, attributed_to=sorted(props), first_divergence=f.get("unmatched"),
+                                          api_level_clauses_violated=sorted({x for _, v in hits for x in v})))
         # C03 quantifies over every schedule: the race of a writer thread with the connection task granting credit cannot
         # occur in the hand-polled simulator; loom enumerates it on the real code and TLC validates every execution
         # (the machinery of C12); an execution in which credit is not conserved speaks about C03 as well
@@ -449,7 +468,7 @@ def mux_check(prop, tier, seed, replay):
             evaluations=evaluations, distinct_nontrivial=len(hashes_nontrivial), rule=P["rule"],
             samples=samples or [dict(note="no non-trivial trace in this run")],
             model_checking_runs=mc_runs, exhaustive=False,
-            known_limitations_met=sorted(kf_seen),
+            known_limitations_met=sorted(kf_seen), violations_found_by_the_application_level_oracle=api_hits,
             **({"loom_credit_race": loom_c03} if loom_c03 else {}),
             nonconformance_attributed_to_other_properties=other[:10],
             explanation="TLC exhaustively checks the listed MC_* configurations of spec/PenguinMux.tla (design level); the simulator "
